@@ -55,10 +55,11 @@ Qed.
 
 Section G.
   Variable cfg : ecfg.
+  Variable fe : fenv.
   Variable rules : list rule.
   Variable get_data : ustr -> list ustr -> result frame.
   Variable lab : rule -> label.
-  Notation rt := (rule_triples cfg rules get_data).
+  Notation rt := (rule_triples cfg fe rules get_data).
 
   Lemma in_group r : In r (asserted_rules rules) -> In r (group_of_label rules lab (lab r)) /\ In (lab r) (group_labels rules lab).
   Proof.
@@ -71,19 +72,19 @@ Section G.
 
   (* a run fails under the grouping iff it fails without it *)
   Lemma grouped_err_iff :
-    (exists e, materialize_grouped cfg rules get_data lab = Err e) <-> (exists e, materialize_rules cfg rules get_data = Err e).
+    (exists e, materialize_grouped cfg fe rules get_data lab = Err e) <-> (exists e, materialize_rules cfg fe rules get_data = Err e).
   Proof.
     unfold materialize_grouped, groups_results, materialize_rules. fold (asserted_rules rules). split; intros (e & H).
     - destruct (rmap_all rt (asserted_rules rules)) as [ls|e'] eqn:E; [|simpl; eauto]. exfalso.
       apply rmap_all_ok in E.
-      destruct (rmap_all (group_triples cfg rules get_data) (map (group_of_label rules lab) (group_labels rules lab))) as [gs|e'] eqn:E2; [simpl in H; discriminate|].
+      destruct (rmap_all (group_triples cfg fe rules get_data) (map (group_of_label rules lab) (group_labels rules lab))) as [gs|e'] eqn:E2; [simpl in H; discriminate|].
       apply rmap_all_err in E2 as (g & Hg & Eg). apply in_map_iff in Hg as (l & <- & Hl).
       unfold group_triples in Eg. destruct (rmap_all rt (group_of_label rules lab l)) as [x|e''] eqn:E3; [simpl in Eg; discriminate|].
       apply rmap_all_err in E3 as (r & Hr & Er). apply group_sub in Hr.
       clear - E Hr Er. induction E as [|x y l' ys Hxy F IH]; simpl in Hr; [tauto|]. destruct Hr as [->|Hr]; [congruence|auto].
     - destruct (rmap_all rt (asserted_rules rules)) as [ls|e'] eqn:E; [simpl in H; discriminate|].
       apply rmap_all_err in E as (r & Hr & Er).
-      destruct (rmap_all (group_triples cfg rules get_data) (map (group_of_label rules lab) (group_labels rules lab))) as [gs|e''] eqn:E2; [|simpl; eauto].
+      destruct (rmap_all (group_triples cfg fe rules get_data) (map (group_of_label rules lab) (group_labels rules lab))) as [gs|e''] eqn:E2; [|simpl; eauto].
       exfalso. apply rmap_all_ok in E2. destruct (in_group r Hr) as [Hg Hl].
       assert (Hin : In (group_of_label rules lab (lab r)) (map (group_of_label rules lab) (group_labels rules lab))) by now apply in_map.
       clear - E2 Hin Hg Er. induction E2 as [|x y l' ys Hxy F IH]; simpl in Hin; [tauto|]. destruct Hin as [->|Hin]; auto.
@@ -93,10 +94,10 @@ Section G.
 
   (* and when both succeed they hold the same statements *)
   Lemma grouped_same_statements l1 l2 :
-    materialize_grouped cfg rules get_data lab = Ok l1 -> materialize_rules cfg rules get_data = Ok l2 -> forall x, In x l1 <-> In x l2.
+    materialize_grouped cfg fe rules get_data lab = Ok l1 -> materialize_rules cfg fe rules get_data = Ok l2 -> forall x, In x l1 <-> In x l2.
   Proof.
     unfold materialize_grouped, groups_results, materialize_rules. fold (asserted_rules rules). intros H1 H2 x.
-    destruct (rmap_all (group_triples cfg rules get_data) (map (group_of_label rules lab) (group_labels rules lab))) as [gs|e] eqn:E1; [|discriminate].
+    destruct (rmap_all (group_triples cfg fe rules get_data) (map (group_of_label rules lab) (group_labels rules lab))) as [gs|e] eqn:E1; [|discriminate].
     destruct (rmap_all rt (asserted_rules rules)) as [ls|e] eqn:E2; [|discriminate].
     simpl in H1, H2. injection H1 as <-. injection H2 as <-. rewrite !mem_dedup.
     apply rmap_all_ok in E1, E2.
